@@ -34,7 +34,17 @@ func driveBuffers(c *driverCtx) error {
 			return b
 		}
 		data := mk()
-		r := avro.NewReadBuf(nil)
+		// the buffer the ReadBuf was made over is as good as any it is reset to later: every other ReadBuf starts its
+		// life over a long buffer (and is then used on shorter ones)
+		first := []byte(nil)
+		if c.rng.Intn(2) == 0 {
+			first = make([]byte, 100+c.rng.Intn(300))
+			for i := range first {
+				first[i] = byte(c.rng.Intn(256)) | 0x80
+			}
+		}
+		r := avro.NewReadBuf(first)
+		c.rec.Emit(key, map[string]any{"op": "rb_reset", "data": byteList(first), "len": r.Len()})
 		r.Reset(data)
 		c.rec.Emit(key, map[string]any{"op": "rb_reset", "data": byteList(data), "len": r.Len()})
 		for k := 0; k < 12+c.rng.Intn(20); k++ {
